@@ -250,50 +250,49 @@ class Ctx:
     def driver_path(self, exe):
         return os.path.join(self.lean_dir, ".lake", "build", "bin", exe)
 
-    def lean_driver(self, exe, lines, timeout=600):
+    def lean_driver(self, exe, lines, timeout=600, chunk=400, per_line=0.25):
         """Pipe lines through a compiled driver; returns the output lines (one per input line).
 
-        If the driver dies on some line (a panic in the model), the batch is bisected and the
-        offending lines answer "(crash)", so one bad case cannot take the whole stream down.
+        Lines go in chunks; a chunk gets `20 + per_line * len` seconds.  If the driver dies or
+        times out on a chunk (a panic or a runaway evaluation in the model), the chunk is bisected
+        and the offending lines answer "(crash)" / "(timeout)", so one bad case cannot take the
+        whole stream down.  `timeout` bounds the total time; lines not reached answer "(timeout)".
         Returns None when the driver is not available at all."""
         path = self.driver_path(exe)
         if not os.path.exists(path):
             return None
         if not lines:
             return []
+        deadline = time.time() + timeout
 
-        def run(batch):
+        def run(batch, limit):
             try:
-                p = subprocess.run([path], input="\n".join(batch) + "\n", capture_output=True, text=True, timeout=timeout)
+                p = subprocess.run([path], input="\n".join(batch) + "\n", capture_output=True, text=True, timeout=limit)
             except subprocess.TimeoutExpired:
                 return None, "timeout"
             out = p.stdout.splitlines()
             if p.returncode != 0 or len(out) != len(batch):
-                return None, (p.stderr or "")[-300:]
+                return None, "crash"
             return out, ""
 
-        out, err = run(lines)
-        if out is not None:
-            return out
-        self.log("driver %s failed on a batch of %d lines (%s); bisecting" % (exe, len(lines), err.strip()[:120]))
-        self.count("driver-crash-batches")
-        result = []
-        budget = [200]   # at most this many extra driver invocations
-
         def solve(batch):
-            if budget[0] <= 0:
-                return ["(crash)"] * len(batch)
-            budget[0] -= 1
-            o, _ = run(batch)
+            if time.time() > deadline:
+                self.count("driver-deadline-lines", len(batch))
+                return ["(timeout)"] * len(batch)
+            limit = max(5.0, min(20 + per_line * len(batch), deadline - time.time()))
+            o, why = run(batch, limit)
             if o is not None:
                 return o
             if len(batch) == 1:
-                self.count("driver-crash-lines")
-                return ["(crash)"]
+                self.count("driver-%s-lines" % why)
+                return ["(%s)" % why]
+            self.count("driver-%s-batches" % why)
             mid = len(batch) // 2
             return solve(batch[:mid]) + solve(batch[mid:])
-        mid = len(lines) // 2
-        result = solve(lines[:mid]) + solve(lines[mid:])
+
+        result = []
+        for i in range(0, len(lines), chunk):
+            result += solve(lines[i:i + chunk])
         return result
 
     # ---------------------------------------------------------------- reporting
